@@ -27,6 +27,7 @@ var c05Table = map[byte]refmodel.Behaviour{
 	'D': {refmodel.SSilent, refmodel.SDefault404}, // the built-in not-found responder (last handler of "notfound" chains)
 	'e': {refmodel.SAddErr, refmodel.SNext, refmodel.SProbe},
 	'f': {refmodel.SAddErr},
+	'x': {refmodel.SNext, refmodel.SWrite, refmodel.SProbe}, // writes after the rest of the chain returned
 }
 
 const c05Codes = "pnqabctsmwuz"
@@ -37,7 +38,7 @@ func compareChain(sh chainShape, table map[byte]refmodel.Behaviour, st *fw.Stats
 	desc := func() string {
 		hooks := ""
 		if sh.Hooks != "" {
-			hooks = fmt.Sprintf(" on a router with hooks %q (E=OnError P=OnPanic)", sh.Hooks)
+			hooks = fmt.Sprintf(" on a router with %q (E=OnError hook, P=OnPanic hook, W=a first middleware wraps c.Resp in a pass-through writer, H=the router served a hijacking request and a 404 before)", sh.Hooks)
 		}
 		return fmt.Sprintf("chain of %d handlers (global %d, group %d, route %d via %s, + main), behaviours %q%s", sh.N, sh.Split[0], sh.Split[1], sh.Split[2], sh.Via, sh.Beh, hooks)
 	}
@@ -196,6 +197,25 @@ func c05Gen(tier string, emit func(c05Case)) {
 			}
 		}
 	}
+	// a transparent writer wrapper installed by a first middleware ('W'), and a router that served a hijacking request
+	// and a 404 before ('H'): an abort's status still decides the response (SetStatus, which by design bypasses
+	// c.Resp, is left out of the wrapped chains)
+	for n := 1; n <= 3; n++ {
+		for _, sp := range splitsOf(n - 1) {
+			for _, hk := range []string{"W", "H"} {
+				codes := "pnqabctsmwzx"
+				if hk == "H" {
+					codes += "u"
+				}
+				vectors(codes, n, func(b string) {
+					if !strings.ContainsAny(b, "tsmzabc") {
+						return
+					}
+					push(chainShape{N: n, Split: sp, Via: viaFor(sp), Beh: b, Hooks: hk})
+				})
+			}
+		}
+	}
 	// unmatched requests: global middleware around the built-in not-found responder, which must not start after an abort
 	for n := 2; n <= 4; n++ {
 		vectors("pnqabtsmuz", n-1, func(b string) {
@@ -259,7 +279,7 @@ func c05Run(c c05Case, st *fw.Stats) []fw.Viol {
 		st.Max("max_chain", int64(sh.N))
 	}
 	if st.WantSample() {
-		st.Sample(map[string]any{"chain": c.Shapes[0], "codes": "e=AddError,Next,probe f=AddError p=plain n=Next q=Next,probe a=probe,Abort,probe b=Abort,probe,Next,probe c=Next,probe,Abort,probe t=AbortThen,probe s=AbortWithStatus,probe m=AbortWithStatus(msg),probe,Next w=write,Next,probe u=SetStatus(201),Next z=AbortWithStatus(200),probe D=built-in 404 responder r=HandleContext to a route whose middleware aborts,probe,Next,probe"})
+		st.Sample(map[string]any{"chain": c.Shapes[0], "codes": "x=Next,write,probe e=AddError,Next,probe f=AddError p=plain n=Next q=Next,probe a=probe,Abort,probe b=Abort,probe,Next,probe c=Next,probe,Abort,probe t=AbortThen,probe s=AbortWithStatus,probe m=AbortWithStatus(msg),probe,Next w=write,Next,probe u=SetStatus(201),Next z=AbortWithStatus(200),probe D=built-in 404 responder r=HandleContext to a route whose middleware aborts,probe,Next,probe"})
 	}
 	return vs
 }
@@ -267,7 +287,7 @@ func c05Run(c c05Case, st *fw.Stats) []fw.Viol {
 var c05Spec = fw.Spec[c05Case]{
 	ID:    "C05",
 	Level: "model_checking",
-	Rule: "complete product: all behaviour vectors over 12 handler behaviours (+ chains of global middleware around the built-in not-found responder) (+ one handler that re-dispatches with HandleContext to an aborting route, at every position of route-level chains n<=5) (+ the n<=3 product and the near-limit chains again on routers with OnError / OnPanic hooks installed and handlers that record errors) (plain, Next, Next+probe, SetStatus(201)+Next, Abort before/after/without Next, AbortThen, AbortWithStatus with/without message, write-then-Next) for chains of n<=4 (thorough 5) handlers x every split of the middleware into global/group/route; n=5 and chains near the handler limit (33,34,61,62,63) by deviation bounding (uniform default behaviour, <=d deviating positions at every position); IsAborted() sampled at every entry and around every abort/Next; " +
+	Rule: "complete product: all behaviour vectors over 12 handler behaviours (+ chains of global middleware around the built-in not-found responder) (+ one handler that re-dispatches with HandleContext to an aborting route, at every position of route-level chains n<=5) (+ the n<=3 product and the near-limit chains again on routers with OnError / OnPanic hooks installed and handlers that record errors) (+ the n<=3 product of chains containing an abort behind a pass-through wrapper of c.Resp, and on a router that served a hijacking request before) (plain, Next, Next+probe, SetStatus(201)+Next, Abort before/after/without Next, AbortThen, AbortWithStatus with/without message, write-then-Next) for chains of n<=4 (thorough 5) handlers x every split of the middleware into global/group/route; n=5 and chains near the handler limit (33,34,61,62,63) by deviation bounding (uniform default behaviour, <=d deviating positions at every position); IsAborted() sampled at every entry and around every abort/Next; " +
 		"each chain is run through ServeHTTP and compared event by event with a cursor-free chain interpreter; non-trivial = a chain containing an abort",
 	Assume: []string{"chains stay within the documented limit (62 middleware + main handler); global middleware is not counted by any registration check (noted in DESIGN, outside the property)"},
 	Bounds: func(tier string) map[string]any {
